@@ -16,6 +16,9 @@
 #include <nop/utility/endian.h>
 #include <nop/utility/sip_hash.h>
 #include <nop/rpc/interface.h>
+#include <nop/base/reference_wrapper.h>
+#include <nop/protocol.h>
+#include <functional>
 
 std::size_t& vh::AllocCounter() { static std::size_t c = 0; return c; }
 
@@ -119,7 +122,12 @@ static std::string RunBoundedReads(R& inner, std::size_t limit, const std::vecto
     else out += "?";
   }
   out += " used=" + std::to_string(b.size());
+  out += " bobs=" + std::to_string(b.empty() ? 1 : 0) + "/" + std::to_string(b.capacity());
   return out;
+}
+template <typename R>
+static std::string ReaderObs(const R& r) {
+  return " obs=" + std::to_string(r.empty() ? 1 : 0) + "/" + std::to_string(r.remaining()) + "/" + std::to_string(r.capacity());
 }
 
 // rseq KIND LIMIT FAULTK FAULTCODE HEX CALLS
@@ -137,10 +145,13 @@ static std::string DoRseq(const std::vector<Sx>& a) {
     std::string o = kind == "inst" ? RunReads(r, calls) : RunBoundedReads(r, limit, calls);
     return "res=" + o + " pos=" + std::to_string(r.index) + " inner=" + (r.log.empty() ? "-" : r.log);
   }
-  if (kind == "buf") { nop::BufferReader r{in.p, in.n}; std::string o = RunReads(r, calls); return "res=" + o + " pos=" + std::to_string(r.capacity() - r.remaining()); }
-  if (kind == "ped") { nop::PedanticBufferReader r{in.p, in.n}; std::string o = RunReads(r, calls); return "res=" + o + " pos=" + std::to_string(r.capacity() - r.remaining()); }
-  if (kind == "bbuf") { nop::BufferReader r{in.p, in.n}; std::string o = RunBoundedReads(r, limit, calls); return "res=" + o + " pos=" + std::to_string(r.capacity() - r.remaining()); }
-  if (kind == "bped") { nop::PedanticBufferReader r{in.p, in.n}; std::string o = RunBoundedReads(r, limit, calls); return "res=" + o + " pos=" + std::to_string(r.capacity() - r.remaining()); }
+  if (kind == "buf") { nop::BufferReader r{in.p, in.n}; std::string o = RunReads(r, calls); return "res=" + o + " pos=" + std::to_string(r.capacity() - r.remaining()) + ReaderObs(r); }
+  if (kind == "ped") { nop::PedanticBufferReader r{in.p, in.n}; std::string o = RunReads(r, calls); return "res=" + o + " pos=" + std::to_string(r.capacity() - r.remaining()) + ReaderObs(r); }
+  // the (const void*, size) constructors
+  if (kind == "vbuf") { nop::BufferReader r{static_cast<const void*>(in.p), in.n}; std::string o = RunReads(r, calls); return "res=" + o + " pos=" + std::to_string(r.capacity() - r.remaining()) + ReaderObs(r); }
+  if (kind == "vped") { nop::PedanticBufferReader r{static_cast<const void*>(in.p), in.n}; std::string o = RunReads(r, calls); return "res=" + o + " pos=" + std::to_string(r.capacity() - r.remaining()) + ReaderObs(r); }
+  if (kind == "bbuf") { nop::BufferReader r{in.p, in.n}; std::string o = RunBoundedReads(r, limit, calls); return "res=" + o + " pos=" + std::to_string(r.capacity() - r.remaining()) + ReaderObs(r); }
+  if (kind == "bped") { nop::PedanticBufferReader r{in.p, in.n}; std::string o = RunBoundedReads(r, limit, calls); return "res=" + o + " pos=" + std::to_string(r.capacity() - r.remaining()) + ReaderObs(r); }
   if (kind == "stream") {
     nop::StreamReader<std::stringstream> r{std::string(reinterpret_cast<const char*>(in.p), in.n)};
     return "res=" + RunReads(r, calls);
@@ -201,8 +212,11 @@ static std::string RunBoundedWrites(W& inner, std::size_t limit, const std::vect
     else out += OneWrite(b, c);
   }
   out += " used=" + std::to_string(b.size());
+  out += " bobs=" + std::to_string(b.capacity());
   return out;
 }
+template <typename W>
+static std::string WriterObs(const W& w) { return " obs=" + std::to_string(w.size()) + "/" + std::to_string(w.capacity()); }
 
 // wseq KIND CAP LIMIT FAULTK FAULTCODE CALLS
 static std::string DoWseq(const std::vector<Sx>& a) {
@@ -217,11 +231,13 @@ static std::string DoWseq(const std::vector<Sx>& a) {
     return "res=" + o + " bytes=" + Hex(w.out) + " inner=" + (w.log.empty() ? "-" : w.log);
   }
   OutBuf ob(cap);
-  if (kind == "buf") { nop::BufferWriter w{ob.p, cap}; std::string o = RunWrites(w, calls); return "res=" + o + " bytes=" + Hex(ob.p, w.size() < cap ? w.size() : cap); }
-  if (kind == "ped") { nop::PedanticBufferWriter w{ob.p, cap}; std::string o = RunWrites(w, calls); return "res=" + o + " bytes=" + Hex(ob.p, w.size() < cap ? w.size() : cap); }
-  if (kind == "cx") { nop::ConstexprBufferWriter w{ob.p, cap}; std::string o = RunWrites(w, calls); return "res=" + o + " bytes=" + Hex(ob.p, w.size() < cap ? w.size() : cap); }
-  if (kind == "bbuf") { nop::BufferWriter w{ob.p, cap}; std::string o = RunBoundedWrites(w, limit, calls); return "res=" + o + " bytes=" + Hex(ob.p, w.size() < cap ? w.size() : cap); }
-  if (kind == "bped") { nop::PedanticBufferWriter w{ob.p, cap}; std::string o = RunBoundedWrites(w, limit, calls); return "res=" + o + " bytes=" + Hex(ob.p, w.size() < cap ? w.size() : cap); }
+  if (kind == "buf") { nop::BufferWriter w{ob.p, cap}; std::string o = RunWrites(w, calls); return "res=" + o + " bytes=" + Hex(ob.p, w.size() < cap ? w.size() : cap) + WriterObs(w); }
+  if (kind == "ped") { nop::PedanticBufferWriter w{ob.p, cap}; std::string o = RunWrites(w, calls); return "res=" + o + " bytes=" + Hex(ob.p, w.size() < cap ? w.size() : cap) + WriterObs(w); }
+  if (kind == "vbuf") { nop::BufferWriter w{static_cast<void*>(ob.p), cap}; std::string o = RunWrites(w, calls); return "res=" + o + " bytes=" + Hex(ob.p, w.size() < cap ? w.size() : cap) + WriterObs(w); }
+  if (kind == "vped") { nop::PedanticBufferWriter w{static_cast<void*>(ob.p), cap}; std::string o = RunWrites(w, calls); return "res=" + o + " bytes=" + Hex(ob.p, w.size() < cap ? w.size() : cap) + WriterObs(w); }
+  if (kind == "cx") { nop::ConstexprBufferWriter w{ob.p, cap}; std::string o = RunWrites(w, calls); return "res=" + o + " bytes=" + Hex(ob.p, w.size() < cap ? w.size() : cap) + WriterObs(w); }
+  if (kind == "bbuf") { nop::BufferWriter w{ob.p, cap}; std::string o = RunBoundedWrites(w, limit, calls); return "res=" + o + " bytes=" + Hex(ob.p, w.size() < cap ? w.size() : cap) + WriterObs(w); }
+  if (kind == "bped") { nop::PedanticBufferWriter w{ob.p, cap}; std::string o = RunBoundedWrites(w, limit, calls); return "res=" + o + " bytes=" + Hex(ob.p, w.size() < cap ? w.size() : cap) + WriterObs(w); }
   if (kind == "stream") {
     nop::StreamWriter<std::stringstream> w;
     std::string out;
@@ -265,6 +281,72 @@ static std::string DoSipNames() {
     out += std::string(n.hex) + ":" + std::to_string(n.table) + ":" + std::to_string(n.iface) + ":" + std::to_string(n.sel64) + ":" + std::to_string(n.sel32);
   }
   return "names=" + out;
+}
+
+// run-time calls of the ARRAY overload of SipHash::Compute (the one the macros use at compile time) and of
+// ComputeMethodSelector: every one of the N elements is hashed, zero bytes and the last element included
+template <std::size_t N>
+static std::string SipArr(const std::vector<std::uint8_t>& b, std::uint64_t k0, std::uint64_t k1) {
+  char c[N]; std::uint8_t u[N];
+  for (std::size_t i = 0; i < N; i++) { c[i] = static_cast<char>(b[i]); u[i] = b[i]; }
+  volatile std::uint64_t kk0 = k0, kk1 = k1;   // keep the evaluation at run time
+  std::uint64_t hc = nop::SipHash::Compute(c, kk0, kk1), hu = nop::SipHash::Compute(u, kk0, kk1);
+  std::uint64_t s64 = nop::ComputeMethodSelector<std::uint64_t>(c, kk0);
+  std::uint32_t s32 = nop::ComputeMethodSelector<std::uint32_t>(c, kk0);
+  return "harr=" + std::to_string(hc) + " harru=" + std::to_string(hu) + " sel64=" + std::to_string(s64) + " sel32=" + std::to_string(s32);
+}
+template <std::size_t N> struct SipArrTab {
+  static std::string run(std::size_t n, const std::vector<std::uint8_t>& b, std::uint64_t k0, std::uint64_t k1) {
+    return n == N ? SipArr<N>(b, k0, k1) : SipArrTab<N - 1>::run(n, b, k0, k1);
+  }
+};
+template <> struct SipArrTab<0> {
+  static std::string run(std::size_t, const std::vector<std::uint8_t>&, std::uint64_t, std::uint64_t) { return "unsupported"; }
+};
+static std::string DoSipArr(const std::vector<Sx>& a) {
+  std::vector<std::uint8_t> bytes = UnHex(a.at(1).a);
+  return SipArrTab<40>::run(bytes.size(), bytes, ParseInt<std::uint64_t>(a.at(2).a), ParseInt<std::uint64_t>(a.at(3).a));
+}
+
+// ------------------------------------------------- reference_wrapper / Protocol --
+// refw KIND HEX: the bytes are read as T and through std::reference_wrapper<T>; what was read is written back both ways
+template <typename T>
+static std::string RefW(const std::vector<std::uint8_t>& bytes) {
+  HeapBytes in(bytes);
+  auto plain = std::make_unique<Holder<T>>(); auto store = std::make_unique<Holder<T>>();
+  std::string out;
+  int c1, c2; std::size_t n1, n2;
+  { nop::Deserializer<IReader> d; d.reader().data = in.p; d.reader().size = in.n; c1 = Code(d.Read(&plain->v)); n1 = d.reader().index; }
+  { nop::Deserializer<IReader> d; d.reader().data = in.p; d.reader().size = in.n; std::reference_wrapper<T> ref{store->v}; c2 = Code(d.Read(&ref)); n2 = d.reader().index; }
+  std::string dp, dr; Dump(dp, plain->v); Dump(dr, store->v);
+  out = "pst=" + std::to_string(c1) + " rst=" + std::to_string(c2) + " pcons=" + std::to_string(n1) + " rcons=" + std::to_string(n2);
+  if (c1 == 0) out += " pval=" + dp;
+  if (c2 == 0) out += " rval=" + dr;
+  if (c1 == 0) {
+    nop::Serializer<IWriter> s1, s2;
+    std::reference_wrapper<T> ref{plain->v}; std::reference_wrapper<const T> cref{plain->v};
+    auto w1 = s1.Write(plain->v); auto w2 = s2.Write(ref);
+    out += " pw=" + std::to_string(Code(w1)) + " rw=" + std::to_string(Code(w2)) + " pbytes=" + Hex(s1.writer().out) + " rbytes=" + Hex(s2.writer().out) +
+           " psize=" + std::to_string(s1.GetSize(plain->v)) + " rsize=" + std::to_string(s2.GetSize(ref));
+    // Protocol<T>: writes and reads exactly like the serializer it is given
+    nop::Serializer<IWriter> s3; auto w3 = nop::Protocol<T>::Write(&s3, plain->v);
+    auto back = std::make_unique<Holder<T>>();
+    nop::Deserializer<IReader> d3; d3.reader().data = in.p; d3.reader().size = in.n; auto r3 = nop::Protocol<T>::Read(&d3, &back->v);
+    std::string db; Dump(db, back->v);
+    out += " qw=" + std::to_string(Code(w3)) + " qbytes=" + Hex(s3.writer().out) + " qr=" + std::to_string(Code(r3)) + " qval=" + db + " qcons=" + std::to_string(d3.reader().index);
+  }
+  return out;
+}
+static std::string DoRefW(const std::vector<Sx>& a) {
+  const std::string& k = a.at(1).a;
+  std::vector<std::uint8_t> bytes = UnHex(a.at(2).a);
+  if (k == "u32") return RefW<std::uint32_t>(bytes);
+  if (k == "i64") return RefW<std::int64_t>(bytes);
+  if (k == "str") return RefW<std::string>(bytes);
+  if (k == "vu8") return RefW<std::vector<std::uint8_t>>(bytes);
+  if (k == "vi32") return RefW<std::vector<std::int32_t>>(bytes);
+  if (k == "pair") return RefW<std::pair<std::int32_t, std::int32_t>>(bytes);
+  return "HARNESS-ERROR kind";
 }
 
 // ------------------------------------------------------------------- endian --
@@ -385,6 +467,8 @@ int main() {
       else if (op == "sip") out = DoSip(a);
       else if (op == "cxcases") out = DoCx();
       else if (op == "sipnames") out = DoSipNames();
+      else if (op == "siparr") out = DoSipArr(a);
+      else if (op == "refw") out = DoRefW(a);
       else if (op == "endian") out = DoEndian(a);
       else if (op == "endiansweep") out = DoEndianSweep(a);
       else out = "HARNESS-ERROR unknown op " + op;
